@@ -327,6 +327,7 @@ pub fn run_check(prop: &'static dyn Prop, tier: Tier, seed: u64) -> i32 {
     }
   }
   let viol_dir = super::verif_root().join("out").join("violations").join(id);
+  let _ = std::fs::remove_dir_all(&viol_dir);
   let mut seen_sigs: HashSet<String> = HashSet::new();
   let mut violations = 0;
   for f in &merged.failures {
